@@ -40,11 +40,24 @@ pub fn remove_protection_of_long_packet(
         return Ok(None);
     }
 
-    let specific_bits = LongSpecificBits::from(*first_byte);
-    let pn_len = specific_bits.pn_len()?;
+    // Header protection is not authenticated: the reserved bits can only be judged once the packet
+    // protection has been removed as well, see [`check_reserved_bits_of_long_packet`].
+    let pn_len = (*first_byte & LongSpecificBits::PN_LEN_MASK) + 1;
     let (_, undecoded_pn) = take_pn_len(pn_len)(max_pn_buf).unwrap();
 
     Ok(Some(undecoded_pn))
+}
+
+/// Checks the reserved bits of a long packet whose header protection **and** packet protection
+/// have both been removed successfully.
+///
+/// A non-zero value is a connection error of type PROTOCOL_VIOLATION, but only for a packet that
+/// authenticated; judging the bits after removing header protection alone would let anyone who can
+/// inject or corrupt a datagram close the connection.
+///
+/// See [Section 17.2](https://www.rfc-editor.org/rfc/rfc9000.html#section-17.2-8.2) of QUIC RFC 9000.
+pub fn check_reserved_bits_of_long_packet(first_byte: u8) -> Result<(), Error> {
+    LongSpecificBits::from(first_byte).pn_len().map(|_| ())
 }
 
 /// Removes the header protection of the short packet.
@@ -82,11 +95,21 @@ pub fn remove_protection_of_short_packet(
         return Ok(None);
     }
 
+    // Header protection is not authenticated: the reserved bits can only be judged once the packet
+    // protection has been removed as well, see [`check_reserved_bits_of_short_packet`].
     let clear_bits = ShortSpecificBits::from(*first_byte);
-    let pn_len = clear_bits.pn_len()?;
+    let pn_len = (*first_byte & ShortSpecificBits::PN_LEN_MASK) + 1;
     let (_, undecoded_pn) = take_pn_len(pn_len)(max_pn_buf).unwrap();
 
     Ok(Some((undecoded_pn, clear_bits.key_phase())))
+}
+
+/// Checks the reserved bits of a short packet whose header protection **and** packet protection
+/// have both been removed successfully, see [`check_reserved_bits_of_long_packet`].
+///
+/// See [Section 17.3.1](https://www.rfc-editor.org/rfc/rfc9000.html#section-17.3.1-4.8) of QUIC RFC 9000.
+pub fn check_reserved_bits_of_short_packet(first_byte: u8) -> Result<(), Error> {
+    ShortSpecificBits::from(first_byte).pn_len().map(|_| ())
 }
 
 /// Decrypt the body of a packet, applicable to both long and short packets.
